@@ -35,6 +35,8 @@ benign)
 seeds)
   for d in seeded/C*/; do
     n=$(basename $d)
+    # SELFTEST_FROM=<name>: resume a run that was cut short (seeds are visited in lexicographic order)
+    if [ -n "${SELFTEST_FROM:-}" ] && [[ "$n" < "$SELFTEST_FROM" ]]; then continue; fi
     props=$(python3 -c "
 import json;m=json.load(open('$d/meta.json'))
 det=m.get('detected_by') or {}
